@@ -4,10 +4,11 @@
   `copyVarsCore_spec` (C11) the target ends with exactly the source's order; with no node stored
   the manager invariant, the order invariant and the (trivial) denotations are immediate.
   With nodes in the target the levels written by `copy_vars` can leave a gap or move a used
-  level (finding F7): that case stays the named hypothesis of `C08_copy_vars`.
+  level (finding F7); compatible declarations (`VarsCompat`): `copyVars_keepsAt_compat`, nodes or not.
 -/
 import DDProofs.AutoCore
 import DDProofs.CopyVars
+import DDProofs.SmallCopyVars
 open Std
 
 namespace DD
@@ -85,7 +86,7 @@ theorem copyVarsCore_keeps_sched (src : Tbl) (names : List String) (hperm : name
 /-- `copy_vars` into a target without nodes, compatible declarations: every mode -/
 theorem copyVars_keepsAt_noNodes {off : Bool} (src : Tbl) (hO : OrderOK src) (names : List String)
     (hperm : names.Perm src.vars.keys) (m : Mgr) (hc : VarsCompat src m.tbl)
-    (hnone : ∀ u : Nat, m.tbl.node? u = none) (h2 : off = false → 2 ≤ src.nvars) :
+    (hnone : ∀ u : Nat, m.tbl.node? u = none) :
     CoreKeepsAt off m (copyVarsCore src names) := by
   intro ext hm r m' he
   obtain ⟨m2, hrun, hv, hl, c1, c2, c3, c4, c5, c6, c7, c8⟩ := copyVarsCore_spec src hO names hperm m hc
@@ -125,8 +126,7 @@ theorem copyVars_keepsAt_noNodes {off : Bool} (src : Tbl) (hO : OrderOK src) (na
       · rw [hnone g.natAbs] at h1; cases h1
   have hR' : RefExact m' ext := hm.counts.congr_nodes_auto (fun k => by rw [hnone' k, hnone k]) c2
   refine ⟨⟨hI', hO', hR', by rw [c7]; exact hm.ctx, by rw [hs]; exact hm.sched,
-    by rw [c8]; exact hm.roots, ⟨fun ho => by rw [c6]; exact hm.mode.1 ho,
-      fun ho => by show 2 ≤ m'.tbl.nvars; rw [hnv]; exact h2 ho⟩⟩, ?_⟩
+    by rw [c8]; exact hm.roots, fun ho => by rw [c6]; exact hm.mode ho⟩, ?_⟩
   -- only the terminal is a node
   intro u hu _
   have h1 : u.natAbs = 1 := by
@@ -142,8 +142,47 @@ theorem copyVars_keepsAt_noNodes {off : Bool} (src : Tbl) (hO : OrderOK src) (na
 and compatible declarations (e.g. it is fresh) -/
 theorem aCopyVars_keepsAt_noNodes {off : Bool} (a : AMgr) (src : Tbl) (hO : OrderOK src)
     (names : List String) (hperm : names.Perm src.vars.keys) (hc : VarsCompat src a.m.tbl)
-    (hnone : ∀ u : Nat, a.m.tbl.node? u = none) (h2 : off = false → 2 ≤ src.nvars) (h : Nat) :
+    (hnone : ∀ u : Nat, a.m.tbl.node? u = none) (h : Nat) :
     AKeepsAt off a h (aCopyVars src names) :=
-  aCopyVars_keepsAt a src names (copyVars_keepsAt_noNodes src hO names hperm a.m hc hnone h2) h
+  aCopyVars_keepsAt a src names (copyVars_keepsAt_noNodes src hO names hperm a.m hc hnone) h
+
+/-- `copy_vars` into ANY target whose declarations are compatible with the source (the target may
+store nodes): every mode.  From `copyVarsCore_spec` / `copyVarsCore_inv` (C11 `C11_copy_vars`): the
+manager invariant, the order invariant and exact counts of the target are kept, and so is the
+meaning BY NAME of every stored node (the levels below the old number of variables keep their
+names). -/
+theorem copyVars_keepsAt_compat {off : Bool} (src : Tbl) (hO : OrderOK src) (names : List String)
+    (hperm : names.Perm src.vars.keys) (m : Mgr) (hc : VarsCompat src m.tbl) :
+    CoreKeepsAt off m (copyVarsCore src names) := by
+  intro ext hm r m' he
+  obtain ⟨m2, hrun, hv, hl, c1, c2, c3, c4, c5, c6, c7, c8⟩ := copyVarsCore_spec src hO names hperm m hc
+  obtain ⟨m3, hrun3, ho, _, _, hinv, hre⟩ := copyVarsCore_inv src hO names hperm m hc
+  rw [hrun] at hrun3; cases hrun3
+  have hs : m2.sched = m.sched := by
+    have := copyVarsCore_keeps_sched src names hperm m
+    rw [hrun] at this; exact this
+  rw [hrun] at he
+  cases he
+  obtain ⟨hI', hden⟩ := hinv hm.inv
+  refine ⟨⟨hI', ho, hre ext hm.counts, by rw [c7]; exact hm.ctx, by rw [hs]; exact hm.sched,
+    by rw [c8]; exact hm.roots, fun h => by rw [c6]; exact hm.mode h⟩, fun u hu _ => ?_⟩
+  obtain ⟨hm', hd⟩ := hden u hu
+  refine ⟨hm', fun σ => ?_⟩
+  show den m'.tbl u (m'.tbl.lift σ) = den m.tbl u (m.tbl.lift σ)
+  rw [hd]
+  refine den_agree_ge m.tbl hm.inv.wf.toWF u hu _ _ (fun i _ hi => ?_)
+  -- the level `i` of the old order keeps its name
+  obtain ⟨x, hx⟩ := hm.order.total i hi
+  have h1 : m.tbl.vars[x]? = some i := (hm.order.inv x i).mpr hx
+  have h2 : src.vars[x]? = some i := hc.vars x i h1
+  have h3 : m'.tbl.l2v[i]? = some x := (ho.inv x i).mp (by rw [hv]; exact h2)
+  show σ (m'.tbl.nameOf i) = σ (m.tbl.nameOf i)
+  unfold Tbl.nameOf
+  rw [h3, hx]
+
+theorem aCopyVars_keepsAt_compat {off : Bool} (a : AMgr) (src : Tbl) (hO : OrderOK src)
+    (names : List String) (hperm : names.Perm src.vars.keys) (hc : VarsCompat src a.m.tbl) (h : Nat) :
+    AKeepsAt off a h (aCopyVars src names) :=
+  aCopyVars_keepsAt a src names (copyVars_keepsAt_compat src hO names hperm a.m hc) h
 
 end DD
